@@ -46,7 +46,26 @@ US == {File1(<<Elem("dyn-c", <<Attr("plain", "sv-x", v)>>,
                     <<Elem("c", <<Attr("slot:", "x", SV("y"))>>,
                            <<Text(<<P(Mem(Id("y"), "p"))>>), If(<<[c |-> EV(Mem(Id("y"), "p")), ch |-> <<Elem("t", <<>>, <<>>)>>]>>, FALSE, <<>>)>>)>>)>>)}
 
-UCases == CASE Family = "UA" -> UA [] Family = "UT" -> UT [] Family = "UD" -> UD [] Family = "UI" -> UI
+(* binding-map family: eligible bindings of every channel, and every unreachable position holding a field *)
+BmEl(e1, e2) == Elem("v", <<Attr("plain", "p", EV(e1)), Attr("class", "", MV(<<S("c "), P(e2)>>))>>, <<Text(<<S("t"), P(e1)>>)>>)
+Unreach(e) == { <<If(<<[c |-> EV(e), ch |-> <<Elem("x", <<>>, <<>>)>>]>>, FALSE, <<>>)>>,
+                <<If(<<[c |-> SV("yes"), ch |-> <<Text(<<P(e)>>)>>]>>, FALSE, <<>>)>>,
+                <<If(<<[c |-> EV(Id("s")), ch |-> <<Elem("x", <<>>, <<>>)>>], [c |-> EV(e), ch |-> <<Elem("y", <<>>, <<>>)>>]>>, TRUE, <<Text(<<P(e)>>)>>)>>,
+                <<For(SV("ab"), "item", "index", "", <<Elem("v", <<Attr("plain", "p", EV(e))>>, <<>>)>>)>>,
+                <<TmplIs(EV(e), None)>>, <<TmplIs(SV("t"), EV(Obj(<<Named("y", e)>>)))>>,
+                <<SlotEl(EV(e), <<>>)>>, <<SlotEl(None, <<Attr("plain", "p", EV(e))>>)>>,
+                <<BlockSlot(EV(e), <<Elem("x", <<>>, <<>>)>>)>>,
+                <<Elem("w", <<>>, <<If(<<[c |-> SV("yes"), ch |-> <<Elem("x", <<Attr("id", "", EV(e))>>, <<>>)>>]>>, FALSE, <<>>)>>)>> }
+              \* a deferred call has no value the specification can unfold as a list
+              \cup (IF e.k = "call" THEN {} ELSE {<<For(EV(e), "item", "index", "", <<Text(<<P(Id("item"))>>)>>)>>})
+UB == {FileD(<<BmEl(EA, EB)>> \o u) : u \in UNION {Unreach(e) : e \in {EA, Mem(Id("o"), "p"), Idx(Id("l"), EB), Arr(<<Hole, Item(Id("s"))>>),
+                                                                  Obj(<<Short("s")>>), Cond(Id("s"), EA, Lit("1")), Call(Id("f"), <<Id("s")>>)}}}
+      \cup {FileD(<<BmEl(e1, e2)>>) : e1 \in Exprs, e2 \in {EB, Mem(Id("o"), "p")}}
+      \cup {FileD(<<Text(<<P(EA), S("-"), P(EB)>>), Block(<<Text(<<P(Mem(Id("o"), "p"))>>), Elem("j", <<Attr("data:", "k", EV(Id("s")))>>, <<>>)>>),
+                    Elem("o", <<Attr("id", "", EV(EB))>>, <<Elem("i", <<Attr("style", "", EV(EA)), Attr("mark:", "m", EV(Id("l")))>>, <<>>)>>)>>)}
+      \cup UA
+
+UCases == CASE Family = "UB" -> UB [] Family = "UA" -> UA [] Family = "UT" -> UT [] Family = "UD" -> UD [] Family = "UI" -> UI
             [] Family = "US" -> US [] Family = "F2" -> F2 [] Family = "F4" -> F4 [] Family = "F5" -> F5 [] Family = "F6" -> F6
 
 UDatas == IF Family = "F6" THEN {DS} ELSE {D1, D5, D3}
@@ -75,12 +94,25 @@ Update(es, kind) ==
        /\ hist' = Append(hist, [op |-> "update", data |-> d2, u |-> U, kind |-> kind, tree |-> TreeOf(d2)])
        /\ UNCHANGED <<files, d0>>
 
-INext == \E es \in EditMenu(data), kind \in CoverKinds : Update(es, kind)
+(* binding-map update: exactly one top-level field replaced *)
+BmValues == {VI(7), VS("nv"), VN, VU, VB(FALSE), ObjB, LstA, VS("")}
+BMUpdate(f, v) ==
+    LET d2 == SetPath(data, <<f>>, v)
+    IN /\ Len(hist) < MaxLen
+       /\ d2 # data
+       /\ data' = d2
+       /\ hist' = Append(hist, [op |-> "bm", field |-> f, data |-> d2, tree |-> TreeOf(d2)])
+       /\ UNCHANGED <<files, d0>>
+
+INext == IF Family = "UB"
+         THEN \E f \in {"a", "b", "o", "l", "s", "f"}, v \in BmValues : BMUpdate(f, v)
+         ELSE \E es \in EditMenu(data), kind \in CoverKinds : Update(es, kind)
 ISpec == IInit /\ [][INext]_ivars
 
 (* the reference instance: after any history the tree is the render of the current data *)
 InstanceInv == hist # <<>> => hist[Len(hist)].tree = TreeOf(data)
 
 IEmit == Len(hist) = MaxLen =>
-           PrintT(<<"CASE", ToJson([files |-> files, data |-> d0, tree |-> TreeOf(d0), hist |-> hist])>>)
+           PrintT(<<"CASE", ToJson([files |-> files, data |-> d0, tree |-> TreeOf(d0), hist |-> hist,
+                                    inel |-> IF Family = "UB" THEN Ineligible(IGroup["a"]) ELSE {}])>>)
 =============================================================================
